@@ -49,9 +49,10 @@ VARIABLES phase,   \* "start" | "body" | "done"
 vars == <<phase, decl, mech, last, hist>>
 
 Range(s) == {s[i] : i \in DOMAIN s}
+ExtraGroups == {"collate", "autoinc", "encode", "generated", "onupdate", "timezone", "encrypt", "tag", "identity", "charset"}
 NoRef == <<"none", 0>>     \* a reference is <<ref id, position in the referenced column list>>
 MCol(n, tf) == [n |-> n, tf |-> tf, nullable |-> TRUE, df |-> "none", pk |-> FALSE, uq |-> FALSE, rf |-> NoRef,
-                rfshape |-> "column", ck |-> "none", cm |-> "none"]
+                rfshape |-> "column", ck |-> "none", cm |-> "none", ex |-> {}]
 NewMech == [columns |-> <<>>, primary_key |-> <<>>, unique_statement |-> <<>>, unique |-> <<>>,
             c_pks |-> <<>>, c_uniques |-> <<>>, c_refs |-> <<>>, c_checks |-> <<>>,
             checks |-> <<>>, ref_columns |-> <<>>]
@@ -84,6 +85,9 @@ Fold(c, o, prev) ==
       [] o.g = "ref" -> [c EXCEPT !.rf = <<o.v, 1>>, !.rfshape = "column"]
       [] o.g = "check" -> [c EXCEPT !.ck = o.v]
       [] o.g = "comment" -> [c EXCEPT !.cm = o.v]
+      \* growth path (DESIGN 3.10): the remaining column options the grammar folds (COLLATE, AUTO_INCREMENT, ENCODE, GENERATED .. AS,
+      \* ON UPDATE, WITH TIME ZONE, ENCRYPT, WITH TAG, IDENTITY, CHARACTER SET): each adds its own key and touches nothing else
+      [] o.g \in ExtraGroups -> [c EXCEPT !.ex = @ \cup {o.v}]
 
 Opt(o) ==
     /\ phase = "body" /\ last = "col" /\ Len(decl.cols) = FocusAt
@@ -168,7 +172,9 @@ SameItem(x, y) == x.k = y.k /\ x.cs = y.cs /\ x.r = y.r /\ x.e = y.e
 ItemOK(it) == /\ it.k \in {"pk", "cpk"} => (~PKInline /\ PKItems = {})
               /\ \A i \in DOMAIN decl.items : ~SameItem(decl.items[i], it) /\ (it.cn # "" => decl.items[i].cn # it.cn)
               /\ \A i \in DOMAIN it.cs : \E j \in 1..MaxCols : ColNames[j] = it.cs[i]
-OptOK(o) == o.g = "pk" => PKItems = {}
+OptOK(o) == /\ o.g = "pk" => PKItems = {}
+            \* IDENTITY(..) and CHARACTER SET .. are suffixes of the type: only directly after it
+            /\ (o.g \in {"identity", "charset"} /\ Len(decl.cols) > 0) => decl.cols[Len(decl.cols)].opts = <<>>
 
 Next == \/ BeginTable
         \/ \E tf \in TypeForms \cup {"int"} : Column(tf)
@@ -200,7 +206,8 @@ ContractCol(dc) ==
      df |-> IF Has(dc, "default") THEN Val(dc, "default") ELSE "none",
      uq |-> Has(dc, "unique") \/ SoleUnnamedUnique(dc.n),
      ck |-> IF Has(dc, "check") THEN Val(dc, "check") ELSE "none",
-     cm |-> IF Has(dc, "comment") THEN Val(dc, "comment") ELSE "none"]
+     cm |-> IF Has(dc, "comment") THEN Val(dc, "comment") ELSE "none",
+     ex |-> {dc.opts[j].v : j \in {i \in DOMAIN dc.opts : dc.opts[i].g \in ExtraGroups}}]
 Contract ==
     [cols |-> [i \in DOMAIN decl.cols |-> ContractCol(decl.cols[i])],
      pk |-> DeclPK,
@@ -215,7 +222,8 @@ Contract ==
 Report ==
     [cols |-> [i \in DOMAIN mech.columns |->
                  [n |-> mech.columns[i].n, tf |-> mech.columns[i].tf, nullable |-> mech.columns[i].nullable,
-                  df |-> mech.columns[i].df, uq |-> mech.columns[i].uq, ck |-> mech.columns[i].ck, cm |-> mech.columns[i].cm]],
+                  df |-> mech.columns[i].df, uq |-> mech.columns[i].uq, ck |-> mech.columns[i].ck, cm |-> mech.columns[i].cm,
+                  ex |-> mech.columns[i].ex]],
      pk |-> mech.primary_key,
      named |-> {[k |-> "cpk", cn |-> x.cn, cs |-> x.cs] : x \in Range(mech.c_pks)}
                \cup {[k |-> "cuniq", cn |-> x.cn, cs |-> x.cs] : x \in {y \in Range(mech.c_uniques) : y.cn # "UC_gen"}},
@@ -241,7 +249,7 @@ Done == phase = "done"
 ColumnsExact == Done => /\ [i \in DOMAIN Report.cols |-> Report.cols[i].n] = DeclNames
                         /\ \A i \in DOMAIN decl.cols :
                              LET r == Report.cols[i]  c == Contract.cols[i]
-                             IN  r.tf = c.tf /\ r.nullable = c.nullable /\ r.df = c.df /\ r.ck = c.ck /\ r.cm = c.cm
+                             IN  r.tf = c.tf /\ r.nullable = c.nullable /\ r.df = c.df /\ r.ck = c.ck /\ r.cm = c.cm /\ r.ex = c.ex
 AppendOnly == [][Len(mech'.columns) >= Len(mech.columns)
                  /\ \A i \in DOMAIN mech.columns : mech'.columns[i].n = mech.columns[i].n /\ mech'.columns[i].tf = mech.columns[i].tf]_vars
 \* C02
